@@ -427,6 +427,7 @@ class GaussSystem:
             return False
         R = vals.shape[0]
         ident = np.zeros(R)
+        lscale = float(max(1.0, np.max(np.abs(vals)))) if np.all(np.isfinite(vals)) else 1.0
         for r in range(R):
             L, n, c, resid = rm.identify_quadratic(vals[r], D)
             if resid > 1e-7 * max(1.0, float(np.max(np.abs(vals[r])))):
@@ -443,12 +444,19 @@ class GaussSystem:
             if not gd.ok:
                 ok = False
                 continue
+            # natural scale: the log-mass is a difference of terms of the size of the probed log-values (nu'Sigma nu / 2
+            # against the log-constant), so 1e-8 is taken relative to that size -- for the integral itself in log space too
             if islog:
-                ok &= ctx.close("graph.mass." + name, got, ident, facts=facts, symptom="mass")
+                ok &= ctx.close("graph.mass." + name, got, ident, scale=lscale, facts=facts, symptom="mass")
             else:
-                ok &= ctx.close("graph.mass." + name, got, np.exp(ident), scale=float(np.max(np.exp(ident))), facts=facts, symptom="mass")
+                with np.errstate(divide="ignore", invalid="ignore"):
+                    lg = np.log(got)
+                rep = (ident > -700.0) & (ident < 700.0)  # where exp() neither underflows nor overflows
+                if got.shape == ident.shape and not np.all(rep):
+                    lg = np.where(rep, lg, ident)
+                ok &= ctx.close("graph.mass." + name, lg, ident, scale=lscale, facts=facts, symptom="mass")
         if is_pdf(type(obj).__name__):
-            ok &= ctx.close("graph.mass.density_integrates_to_one", ident, np.zeros(R), facts=facts, symptom="mass")
+            ok &= ctx.close("graph.mass.density_integrates_to_one", ident, np.zeros(R), scale=lscale, facts=facts, symptom="mass")
         return ok
 
 
